@@ -9,11 +9,20 @@ from vlib import modelgen as MG
 from vlib.runner import Check, Discard, sha
 from vlib.probe import LibError
 from checks import c04
+from checks import c11_dyn as DYN
 
 REPO = os.environ.get("VERIF_REPO", "/repo")
 SHIPPED = sorted(glob.glob(os.path.join(REPO, "tests", "*.DATA")))
 
 KINDS = list(MG.GENERATORS)
+
+
+@st.composite
+def mixed_strategy(draw, tier):
+    # about 40 % dynamic state objects, 60 % deck objects
+    if draw(st.integers(0, 9)) < 4:
+        return draw(DYN.strategy(tier))
+    return draw(case_strategy())
 
 
 @st.composite
@@ -60,12 +69,24 @@ class C11(Check):
             "(where the class has operator==); the public-getter observation (every Well/Group/Connection/Segment/ScheduleState getter, "
             "sub-configurations in full) and the member-list dump of x, y, z are identical; re-packing y gives the same length as packing x "
             "(and as packing x a second time).  Non-trivial: object with >= 2 wells and >= 2 of {UDQ, ACTIONX, WLIST, GCONSALE, network, "
-            "MSW, VFP table, WTEST}; distinct by text hash.")
+            "MSW, VFP table, WTEST}; distinct by text hash.  Second family (about 40 % of the generated cases, labels 'dyn:<class>'): "
+            "SummaryState, UDQState, Action::State, WellTestState and RestartValue (data::Solution, data::Wells with connections and "
+            "segments, data::GroupAndNetworkValues, data::Aquifers, extra vectors) built from a generated VALID history of calls to the "
+            "class's public mutators (update*/set/erase*/append/update_udq; add_define/add_assign; add_run; close_*/open_*/filter_wells/"
+            "test_wells/clear; insert/addExtra/convertToSI/convertFromSI and the public data members), plus each class's "
+            "serializationTestObject() (enumerated); same three-generation oracle, the observation being every public getter over the "
+            "names the history used and names it never used.  Non-trivial dynamic case: history writing >= 10 distinct entries of >= 3 "
+            "kinds; distinct by hash of (class, constructor arguments, history).")
     ASSUMPTIONS = ["an EclipseState's grid and field properties travel separately (documented) and are not observed",
                    "members with no public getter and absent from operator== and serializeOp are invisible",
                    "byte equality of re-packs is not required (unordered containers), only equal length and meaning",
-                   "dynamic state objects (SummaryState, UDQState, Action::State, WellTestState, RestartValue) are covered by the second "
-                   "part of this check when present (see evidence classes 'dyn:*')"]
+                   "dynamic state objects: the valid input domain is the one stated in checks/c11_dyn.py (whole-second start times - the "
+                   "packer transfers a time_point as std::time_t -, no NaN values because NaN != NaN under operator==, UDQ keys with 'U' "
+                   "as second character, open_well only for wells closed before, unique extra keys of <= 8 characters)",
+                   "answers whose ORDER comes from a hash table (SummaryState::wells(var), iteration, WellTestState::test_wells) are "
+                   "compared as sorted lists",
+                   "UDQState::defines and WTestWell::wtest_report_step have no direct getter: seen through operator==, the member-list "
+                   "dump and (report step) the continuation test_wells() calls on a copy"]
     EXAMPLES = {"quick": 50, "thorough": 1000}
     MIN_EVALS = {"quick": 500, "thorough": 8000}
     TIME_CAP = {"quick": 200, "thorough": 1500}
@@ -76,15 +97,32 @@ class C11(Check):
     TECHNIQUE = "property-based testing: generated and shipped objects, serialization round-trip oracle with public-query sweep"
 
     def strategy(self, tier):
-        return case_strategy()
+        return mixed_strategy(tier)
 
     def enumerate(self, tier):
+        for c in DYN.testobj_cases():
+            yield c
         for p in SHIPPED:
             yield {"kind": "shipped", "path": os.path.relpath(p, REPO)}
+
+    def floors(self, tier):
+        # vacuity guard: every dynamic class must actually occur
+        return {"dyn:" + c: 0.02 for c in DYN.CLASSES}
 
     def classify(self, case):
         if case["kind"] == "shipped":
             return True, "shipped:" + case["path"], ["shipped-deck"]
+        if case["kind"] == "dyn":
+            labels = ["kind:dyn", "dyn:" + case["cls"]]
+            if case.get("testobj"):
+                return True, "testobj:" + case["cls"], labels + ["dyn:serializationTestObject"]
+            n, kinds = DYN.entries_and_kinds(case)
+            nontriv = n >= 10 and len(kinds) >= 3
+            if nontriv:
+                labels.append("dyn-nontrivial:" + case["cls"])
+            for k in sorted(kinds):
+                labels.append("dyn-op:%s:%s" % (case["cls"], k))
+            return nontriv, sha([case["cls"], case.get("ctor"), case["ops"]], 16), labels
         t = case["text"]
         labels = ["kind:" + case["kind"]]
         feats = 0
@@ -97,11 +135,14 @@ class C11(Check):
         return (nw >= 2 and feats >= 2), sha(t, 16), labels
 
     def sample_view(self, case):
-        if case["kind"] == "shipped":
+        if case["kind"] in ("shipped", "dyn"):
             return case
         return {"kind": case["kind"], "schedule": case["text"][len(MG.prelude()):], "apps": case.get("apps")}
 
     def call(self, P, case, full):
+        if case["kind"] == "dyn":
+            args = {k: case[k] for k in ("cls", "ctor", "ops", "q", "testobj") if k in case}
+            return P.call("pack_dyn", full=full, **args)
         if case["kind"] == "shipped":
             return P.call("pack_deck", path=os.path.join(REPO, case["path"]), full=full)
         if case.get("apps"):
@@ -116,7 +157,7 @@ class C11(Check):
             if case["kind"] == "shipped":
                 raise Discard()      # a shipped deck that needs other context (restart file, python, ...)
             raise
-        for name in ("Schedule", "EclipseState", "SummaryConfig"):
+        for name in ((case["cls"],) if case["kind"] == "dyn" else ("Schedule", "EclipseState", "SummaryConfig")):
             o = r[name]
             bad = None
             if o["consumed_bytes"] != o["packed_bytes"]:
@@ -143,6 +184,9 @@ class C11(Check):
                         if d:
                             detail["first_difference"] = {"where": d[0], "x": d[1], other: d[2]}
                             break
-                detail["input"] = case.get("path") or case["text"][len(MG.prelude()):][:3000]
+                if case["kind"] == "dyn":
+                    detail["input"] = {k: case.get(k) for k in ("cls", "testobj", "ctor", "ops")}
+                else:
+                    detail["input"] = case.get("path") or case["text"][len(MG.prelude()):][:3000]
                 return {"rule": "%s: %s" % (name, bad[0]), "detail": detail, "key": None}
         return None
